@@ -286,6 +286,8 @@ fn calculate_b(
     commitment: Option<G1Projective>,
     message_scalars: Vec<BBSplusMessage>,
 ) -> Result<Vec<G1Projective>, Error> {
+    #[cfg(zkryptium_verif)]
+    crate::verif_hooks::tick("phase:calculate_b");
 
     let commitment = commitment.unwrap_or(G1Projective::IDENTITY);
 
@@ -351,6 +353,8 @@ where
     CS: BbsCiphersuite,
     CS::Expander: for<'a> ExpandMsg<'a>,
 {
+    #[cfg(zkryptium_verif)]
+    crate::verif_hooks::tick("phase:finalize_blind_sign");
     //TODO: Edit taken from Grotto bbs sig library
     /*let L  = generators.values.len() - 1;
 
